@@ -302,7 +302,7 @@ macro_rules! commit_harness {
     };
 }
 
-// @harness props=C01,C03 tier=quick timeout=2400 mem=24 stubbing=1 replay=scenario:commit_events flavor=nodebug optcover=failed|refused
+// @harness props=C01,C03 tier=quick timeout=2400 mem=24 rss=5 stubbing=1 replay=scenario:commit_events flavor=nodebug optcover=failed|refused
 // @desc the real commit() from an arbitrary header state, 1PC or 2PC, WITHOUT storage failure: the storage events are exactly W(H1) [F if two_phase] W(H2) F, where H1/H2 are byte-equal to the images obtained by write_secondary_slot(id, roots) and then swap_primary_slot + two_phase flag on a clone of the pre-state header (the guarantee c01_crash_recover assumes), both images keep recovery_required, and commit returns Ok; at every event a concurrent observer still reads the OLD commit point (nothing is published before the final flush returned); on return the published header is H2 and reads are served from the primary.
 // @functions TransactionalMemory::commit, DatabaseHeader::{write_secondary_slot,swap_primary_slot,to_bytes,primary_slot,secondary_slot}, TransactionHeader::to_bytes, InMemoryState::latest_slot, PagedCachedFile::check_io_errors, CheckedBackend::check_failure, UnpersistedState::clear
 // @bound one commit; ShrinkPolicy::Never; geometry 512/0/16 one region; pre-state slots, flags, new roots, new id (above the primary's), symbolic; commit mode (1pc/2pc) and primary index (p0/p1) fixed per harness
@@ -313,7 +313,7 @@ commit_harness!(c01_commit_events_2pc_p0, 0, true, false);
 commit_harness!(c01_commit_events_1pc_p1, 1, false, false);
 commit_harness!(c01_commit_events_2pc_p1, 1, true, false);
 
-// @harness props=C08,C01 tier=quick timeout=2400 mem=24 stubbing=1 replay=scenario:commit_events flavor=nodebug
+// @harness props=C08,C01 tier=quick timeout=2400 mem=24 rss=6 stubbing=1 replay=scenario:commit_events flavor=nodebug
 // @desc the real commit() from an arbitrary header state, 1PC or 2PC, with at most one injected storage failure at an arbitrary event, or a failure already latched: without a failure the storage events are exactly W(H1) [F if two_phase] W(H2) F, where H1/H2 are byte-equal to the images obtained by write_secondary_slot(id, roots) and then swap_primary_slot + two_phase flag on a clone of the pre-state header (the guarantee c01_crash_recover assumes), both images keep recovery_required, and commit returns Ok; at every event a concurrent observer still reads the OLD commit point (nothing is published before the final flush returned); on return the published header is H2 and reads are served from the primary. With a failure injected at event k: commit returns Err, the events are the prefix up to k, and the published state (ids, roots, read_from_secondary) is untouched. With a failure already latched: Err before any storage event.
 // @functions TransactionalMemory::commit, DatabaseHeader::{write_secondary_slot,swap_primary_slot,to_bytes,primary_slot,secondary_slot}, TransactionHeader::to_bytes, InMemoryState::latest_slot, PagedCachedFile::check_io_errors, CheckedBackend::check_failure, UnpersistedState::clear
 // @bound one commit; ShrinkPolicy::Never; geometry 512/0/16 one region; pre-state slots, flags, new roots, new id (above the primary's), failure position symbolic; commit mode and primary index fixed per harness
@@ -377,7 +377,7 @@ fn c03_non_durable_commit() {
 
 // ---- C01 / C08 / C20: shutdown -----------------------------------------------------------------
 
-// @harness props=C01,C08,C20 tier=quick timeout=1800 mem=16 stubbing=1 replay=scenario:shutdown flavor=nodebug
+// @harness props=C01,C08,C20 tier=quick timeout=2350 mem=20 rss=10 stubbing=1 replay=scenario:shutdown flavor=nodebug
 // @desc the real close(): recovery_required is cleared on disk only when no I/O error is latched, an allocator state is loaded, needs_repair is clear and the preceding flush succeeded - then the events are F W(clean) F and the image has the flag clear; in every other case no header is written (so the flag stays set and the next open repairs); backend.close() is called exactly once in every case, after the last storage event
 // @functions TransactionalMemory::{close,flush_shutdown_header,needs_repair}, PagedCachedFile::{close,check_io_errors}, CheckedBackend::{close,check_failure}
 // @bound one close; header state, latched error, needs_repair, allocator presence, failure position symbolic
